@@ -16,6 +16,8 @@ OWN_PREFIX = ("once:", "idx:")
 def own(key):
     if key.startswith(OWN_PREFIX):
         return PROP
+    if key.startswith("frame:"):
+        return "C03"
     if key.startswith("fd:"):
         return "C10"
     if key.startswith("net:"):
